@@ -84,6 +84,7 @@ NATIVE = {
     'c02n': {'tags': ['C02'], 'enum': 'byte_families::fam_c02', 'check': 'run_c02(c)', 'n': 600000, 'family': 'every ABI structure decoded from buffers <= 80 bytes at offsets 0..8 and past the end, both classes and byte orders, against the layout table'},
     'c16n': {'tags': ['C16'], 'panic_props': ['C01'], 'enum': 'term_oracle::enumerate_term', 'check': 'term_oracle::check_term(c)', 'n': 140000, 'family': 'adversarial link structures of < 300 bytes: SysV chains with cycles / self-loops / out-of-range links, GNU chains without stop bit, VerNeed / VerDef records with next = 0 / overlapping / huge and counts up to u64::MAX, random notes and entry tables; clauses: returns within 3 s, at most one item per byte, at most the declared count'},
     'c19n': {'tags': ['C19'], 'panic_props': [], 'enum': 'c19_gen::enumerate_c19', 'check': 'c19_gen::check_c19(c)', 'n': 3000, 'family': 'every constant of the reference table that elf::abi exports; every to_str function over its whole domain (u8 / u16) or over all constant values, their neighbours and 3000 pseudo-random values (u32 / u64 / i64); the to_string variants against to_str / the fallback text'},
+    'c01n': {'tags': [], 'panic_props': ['C01'], 'enum': 'c01_oracle::enumerate_c01', 'check': 'c01_oracle::check_c01(c)', 'n': 200000, 'family': 'a complete small ELF object (both classes and byte orders: dynsym, versym / verneed / verdef, SysV and GNU hash, dynamic, note, rel / rela, symtab, a compressed section, three segments) with 1-3 header fields (section header, program header, ELF header) set to boundary values (0, 1, 2, 2^31, 2^32-1, 2^63, 2^64-1, 2^64-8, file length +-1, ...), sometimes truncated or with a flipped bit; every public accessor of ElfBytes called and every table / iterator / lookup walked; clause: no panic'},
     'c13n': {'panic_props': ['C13', 'C01'], 'enum': 'slice_oracle::enumerate_symver', 'check': 'slice_oracle::check_symver(c)', 'n': _n('VERIF_SYMVER_CASES', '300000'),
              'family': 'version sections from kani/replay_src/slice_oracle.rs::enumerate_symver: 1-4 versym entries, 0-3 verneed records with one auxiliary record each, 0-3 verdef records, forward/zero/out-of-range links, hidden bits, unreadable strings; get_requirement/get_definition against a reference resolution'},
 }
@@ -261,8 +262,8 @@ def setup(tmp):
     checks = '\n'.join(l for l in checks.splitlines() if not l.startswith('//!')) + '\n'
     checks = checks.replace('include!("layout_oracle.rs");', layout_oracle())
     # route the hand-written Err(format!(..)) through the cheap path under Kani as well
-    open(os.path.join(tmp, 'src', 'lib.rs'), 'w').write(LIB_HEAD + checks + gen_harness_rs(hs) + '\n#[cfg(not(kani))] pub mod stream_oracle;\n#[cfg(not(kani))] pub mod slice_oracle;\n#[cfg(not(kani))] pub mod byte_families;\n#[cfg(not(kani))] pub mod term_oracle;\n' + c02_dispatch() + c19_oracle())
-    for f_ in ('stream_oracle.rs', 'slice_oracle.rs', 'byte_families.rs', 'term_oracle.rs'): shutil.copy(os.path.join(ROOT, 'kani', 'replay_src', f_), os.path.join(tmp, 'src', f_))
+    open(os.path.join(tmp, 'src', 'lib.rs'), 'w').write(LIB_HEAD + checks + gen_harness_rs(hs) + '\n#[cfg(not(kani))] pub mod stream_oracle;\n#[cfg(not(kani))] pub mod slice_oracle;\n#[cfg(not(kani))] pub mod byte_families;\n#[cfg(not(kani))] pub mod term_oracle;\n#[cfg(not(kani))] pub mod c01_oracle;\n' + c02_dispatch() + c19_oracle())
+    for f_ in ('stream_oracle.rs', 'slice_oracle.rs', 'byte_families.rs', 'term_oracle.rs', 'c01_oracle.rs'): shutil.copy(os.path.join(ROOT, 'kani', 'replay_src', f_), os.path.join(tmp, 'src', f_))
     open(os.path.join(tmp, 'Cargo.toml'), 'w').write('[package]\nname = "elf-verif-replay"\nversion = "0.1.0"\nedition = "2021"\n\n[dependencies]\nelf = { path = "%s" }\n\n[lints.rust]\nunexpected_cfgs = { level = "allow", check-cfg = [\'cfg(kani)\'] }\n\n[workspace]\n' % os.path.join(tmp, 'elf'))
     return hs
 
@@ -321,7 +322,12 @@ fn main() {
             // family makes (PANIC_PROPS) -- not for a property that merely shares the family
             let mine = if msg.starts_with("PANIC") { PANIC_PROPS.contains(&p.as_str()) }
                        else if TAGS.is_empty() { msg.starts_with(&format!("{}:", p)) } else { TAGS.contains(&p.as_str()) };
-            if !mine { continue; }
+            if !mine {
+                // a hang that belongs to another property: the abandoned worker keeps spinning and every further hang costs the
+                // watchdog time -- end this search (reported as a time-out: nothing found, nothing claimed)
+                if msg.contains("did not return within") { println!("HANG {}", i); std::process::exit(3); }
+                continue;
+            }
         }
         println!("FOUND {}", i);
         println!("CASE {:?}", c);
@@ -337,7 +343,7 @@ fn main() {
         rc_, out = run_group(['cargo', 'run', '--offline', '-q', '--release', '--bin', 'native_search'], tmp, env, timeout)
         wall = round(time.time() - t0, 1)
         bound = nv['bound']
-        if rc_ is None: return {'status': 'timeout', 'bound': bound, 'wall_s': wall}
+        if rc_ is None or re.search(r'^HANG \d+$', out, re.M): return {'status': 'timeout', 'bound': bound, 'wall_s': wall}
         m = re.search(r'^FOUND (\d+)$', out, re.M)
         if not m:
             return {'status': 'no-counterexample-within-bound' if 'NONE' in out else 'search-failed', 'bound': bound, 'wall_s': wall, 'tail': out[-600:] if 'NONE' not in out else ''}
@@ -351,7 +357,7 @@ fn main() {
         open(os.path.join(tmp, 'src', 'bin', 'replay.rs'), 'w').write(main)
         r = subprocess.run(['cargo', 'run', '--offline', '-q', '--release', '--bin', 'replay'], cwd=tmp, env=env, capture_output=True, text=True, timeout=600)
         panicked = r.returncode not in (0, 1) and 'panicked at' in r.stderr
-        extra_src = ''.join('\n// ---- src/%s\n' % f + open(os.path.join(tmp, 'src', f)).read() for f in ('stream_oracle.rs', 'slice_oracle.rs', 'byte_families.rs', 'term_oracle.rs'))
+        extra_src = ''.join('\n// ---- src/%s\n' % f + open(os.path.join(tmp, 'src', f)).read() for f in ('stream_oracle.rs', 'slice_oracle.rs', 'byte_families.rs', 'term_oracle.rs', 'c01_oracle.rs'))
         return {'status': 'replayed-fails' if ((r.returncode == 1 and 'REPLAY FAILS' in r.stdout) or panicked) else 'replay-does-not-fail', 'bound': bound, 'wall_s': wall,
                 'inputs': case, 'replay_main': main, 'replay_output': (r.stdout[-1500:] + r.stderr[-500:]) if not panicked else ('REPLAY PANICS on the real crate: ' + r.stderr[-700:]),
                 'kani_cmd': 'cargo run --release --bin native_search   (native enumeration)', 'lib_rs': open(os.path.join(tmp, 'src', 'lib.rs')).read() + extra_src}
@@ -429,7 +435,11 @@ def harnesses_for(obligation):
         if m:
             hs = f(m)
             hs = hs if isinstance(hs, list) else [hs]
-            return [h for h in hs if (h in HARNESS or h in NATIVE or h in struct_harnesses())]
+            hs = [h for h in hs if (h in HARNESS or h in NATIVE or h in struct_harnesses())]
+            # every panic-freedom obligation of the slice parser is also paired with the structured-corruption family of C01
+            if obligation.startswith('safety:') and not obligation.startswith('safety:elf_stream::') and 'c01n' not in hs: hs.append('c01n')
+            return hs
+    if obligation.startswith('safety:') and not obligation.startswith('safety:elf_stream::'): return ['c01n']
     return []
 def harness_for(obligation):
     hs = harnesses_for(obligation)
